@@ -23,6 +23,7 @@ import (
 	"path/filepath"
 	"strings"
 	"sync"
+	"unicode/utf8"
 
 	oci "github.com/opencontainers/runtime-spec/specs-go"
 	orderedyaml "gopkg.in/yaml.v3"
@@ -140,6 +141,7 @@ func (s *Spec) write(overwrite bool) error {
 		data = append([]byte("---\n"), data...)
 	} else {
 		data, err = json.Marshal(s.Spec)
+		data = escapeJSONForYAML(data)
 	}
 	if err != nil {
 		return fmt.Errorf("failed to marshal Spec file: %w", err)
@@ -169,6 +171,22 @@ func (s *Spec) write(overwrite bool) error {
 	}
 
 	return err
+}
+
+// escapeJSONForYAML escapes DEL and the C1 control characters (U+007F to
+// U+009F), which encoding/json leaves as they are, as \u00XX. Spec files
+// are read back with a YAML parser which does not accept these characters
+// unescaped (or, for U+0085, treats them as a line break).
+func escapeJSONForYAML(data []byte) []byte {
+	out := make([]byte, 0, len(data))
+	for _, r := range string(data) {
+		if r >= 0x7f && r <= 0x9f {
+			out = append(out, fmt.Sprintf(`\u%04x`, r)...)
+		} else {
+			out = utf8.AppendRune(out, r)
+		}
+	}
+	return out
 }
 
 // GetVendor returns the vendor of this Spec.
